@@ -282,7 +282,15 @@ impl VM {
                 }
                 OpCode::GetGlobal => {
                     let idx = self.read_u16();
-                    let value = self.globals[idx as usize];
+                    let value = match self.globals.get(idx as usize) {
+                        Some(value) => *value,
+                        // a variable that is read while its own initialiser is still running, e.g. stel x = x
+                        None => {
+                            return Err(Error::ReferenceError(
+                                "variabele heeft nog geen waarde".to_string(),
+                            ))
+                        }
+                    };
                     self.push(value);
                 }
                 OpCode::SetLocal => {
